@@ -88,7 +88,10 @@ func C01(c *core.Ctx) {
 		sd = 4
 	}
 	seq := &HistSpec{Name: "sequences", Cfg: Config{}, Ops: seqOps, Depth: sd, Dedup: false, Comps: comps,
-		Prefix: []Action{conn("A", "a", true), conn("B", "b", true), sub("A", 11, "a/+", 1), sub("A", 12, "#", 0), sub("B", 21, "a/b", 2),
+		Prefix: []Action{
+			// an in-process subscriber whose callback returns an error, first in every list it is in
+			{Kind: "lsub", Client: "E1", Filters: []string{"a/#"}, QoSs: []byte{1}}, {Kind: "lsub", Client: "E2", Filters: []string{"#"}, QoSs: []byte{0}},
+			conn("A", "a", true), conn("B", "b", true), sub("A", 11, "a/+", 1), sub("A", 12, "#", 0), sub("B", 21, "a/b", 2),
 			// the in-process subscriber shares its filter with a network client and with a second in-process subscriber
 			sub("B", 24, "a/#", 0),
 			{Kind: "lsub", Client: "L", Filters: []string{"a/#"}, QoSs: []byte{1}}, {Kind: "lsub", Client: "L2", Filters: []string{"a/#"}, QoSs: []byte{2}}}}
